@@ -338,6 +338,8 @@ func TestWorker(t *testing.T) {
 		sum.Faults["gate_items"] += eng.gateCount[0]
 		sum.Faults["gate_tick"] += eng.gateCount[1]
 		sum.Faults["gate_stop"] += eng.gateCount[2]
+		sum.Faults["resumed_after_unlock"] += eng.nAfterUnlock
+		sum.Faults["preempted_after_unlock"] += eng.nPreemptAfterUnlock
 		if nt {
 			fps[res.FP] = true
 		}
